@@ -99,4 +99,28 @@ fn main() {
     emit("fvi", "FailedVerification", "a1", &[], "index", "", 0, 0, "exact:1:0", &caught(move || u.verify()));
     let u = Unimock::new(MsgMock::prov.each_call(matching!(_)).returns(1u32));
     emit("mnc", "MockNeverCalled", "prov", &[], "-", "", 0, 0, "", &caught(move || u.verify()));
+    // ---- long / non-ASCII renderings are printed in full
+    let long: String = "é".repeat(200);
+    let long_dbg = format!("{long:?}");
+    let u = Unimock::new(()).no_verify_in_drop();
+    emit("long", "NoMockImplementation", "a2", &["7", &long_dbg], "-", "", 0, 0, "", &caught(|| u.a2(7, &long)));
+    let mixed: String = format!("{}{}", "x".repeat(254), "ß∂é");
+    let mixed_dbg = format!("{mixed:?}");
+    emit("long2", "NoMockImplementation", "a2", &["7", &mixed_dbg], "-", "", 0, 0, "", &caught(|| u.a2(7, &mixed)));
+    // ---- post: a swallowed mock-induced panic is remembered — verifying the original afterwards fails with that error's text
+    //      (line format: post, id, remembered|forgotten, first line of the induced message, first line of the verification message)
+    let post = |id: &str, u: Unimock, f: &dyn Fn(&Unimock)| {
+        let induced = caught(|| f(&u));
+        let verdict = caught(move || u.verify());
+        let i1 = induced.lines().next().unwrap_or("").to_string();
+        let ok = verdict != "<no panic>" && !i1.is_empty() && verdict.contains(&i1);
+        println!("post\t{id}\t{}\t{}\t{}", if ok { "remembered" } else { "forgotten" }, i1, verdict.lines().next().unwrap_or(""));
+    };
+    post("p-long", Unimock::new(()), &|u| { u.a2(7, &long); });
+    post("p-mixed", Unimock::new(()), &|u| { u.a2(7, &mixed); });
+    post("p-empty-panic-msg", Unimock::new(MsgMock::a1.each_call(matching!(_)).panics("")), &|u| { u.a1(1); });
+    post("p-multiline-panic-msg", Unimock::new(MsgMock::a1.each_call(matching!(_)).panics("first\nsecond")), &|u| { u.a1(1); });
+    post("p-nomatch", Unimock::new(MsgMock::a2.each_call(matching!(9, _)).returns(1u32).at_least_times(0)), &|u| { u.a2(1, "\u{1F600}"); });
+    post("p-cannot-unmock", Unimock::new(MsgMock::a1.each_call(matching!(_)).applies_unmocked()), &|u| { u.a1(1); });
+    post("p-order", Unimock::new((MsgMock::a1.next_call(matching!(1)).returns(1u32), MsgMock::a2.next_call(matching!(2, "b")).returns(2u32))), &|u| { u.a2(2, "b"); });
 }
